@@ -954,6 +954,12 @@ func checkWhoMayAdvance(p *Prog, r *Roles, res *Result, rule string) {
 			}
 			n++
 			construct := fmt.Sprintf("%s calls %s", funcName(f), what)
+			if what == "tso.TSO.Init" {
+				// Init stores both counters unconditionally; the counters of a running node move through the guarded,
+				// retried raises of Commit only (C02-R1) - Init behind SetCurrentRevision is a side door around them
+				res.bad(rule, construct, p.pos(c.Pos()), "TSO.Init, which stores the committed and the dealt counter unconditionally, is called on a running node: a value that arrives late (a follower's sync overtaken by the node's own start as leader) overwrites both counters, and revisions that are already in the store are handed out again")
+				continue
+			}
 			if why, ok := allowed(f); ok {
 				res.ok(rule, construct, p.pos(c.Pos()), "allowed caller: "+why)
 			} else {
